@@ -528,6 +528,8 @@ def match(pat, e, b):
     references (&, &mut) are transparent"""
     pat, e = strip_ref(pat), strip_ref(e)
     if isinstance(pat, tuple) and len(pat) == 2 and pat[0] == "path" and pat[1].startswith("$"):
+        if e is None:
+            return False
         if pat[1] in b:
             return b[pat[1]] == e
         b[pat[1]] = e
@@ -575,7 +577,8 @@ class Emitter:
 
     def __init__(self, exprs=(), stmts=(), lets=(), pats=(), assigns=(), state=None, ret="{v}", locals_=()):
         self.exprs = [(parse_expr(a), b) for a, b in exprs]
-        self.stmts = [(parse_expr(a), b) for a, b in stmts]
+        self.stmts = [(parse_expr(a), b) for a, b in stmts]   # b: lean text updating the state, or (variable, lean text)
+        self._tn = 0
         self.lets = [(parse_expr(a), v, s) for a, v, s in lets]
         self.pats = [(parse_pat(a), b) for a, b in pats]
         self.assigns = [(parse_expr(a), b) for a, b in assigns]
@@ -692,6 +695,15 @@ class Emitter:
             return self.result(None, pure)
         s, rest = stmts[0], stmts[1:]
         k = s[0]
+        if not pure and k in ("let", "expr", "return") and len(s) > 1 and s[1] is not None:
+            which = 2 if k == "let" else 1
+            if (k != "let" or not any(match(pt, s[2], {}) for pt, _, _ in self.lets)) and \
+                    not self._leaf_with_exit(s[which]):
+                e2, pre = self._hoist(s[which])
+                if pre:
+                    s2 = list(s)
+                    s2[which] = e2
+                    return self.blk(pre + [tuple(s2)] + rest, pure)
         if k == "break" and self.on_break is not None and not pure:
             return self.on_break
         if k == "continue" and self.on_continue is not None and not pure:
@@ -766,6 +778,8 @@ class Emitter:
             for pat, out in self.stmts:
                 b = {}
                 if match(pat, e, b):
+                    if isinstance(out, tuple):
+                        return f"let {out[0]} := {self.subst(out[1], b)}; {self.blk(rest, pure)}"
                     return f"let {self.state} := {self.subst(out, b)}; {self.blk(rest, pure)}"
             raise XlateError(f"statement without a template: {render(e)[:80]}")
         if k == "let":
@@ -814,6 +828,46 @@ class Emitter:
                 return f"let {lhs[1][1]} := ({lhs[1][1]}.set {self.tx(lhs[2])} {self.tx(rhs)}); {self.blk(rest, pure)}"
             raise XlateError(f"assignment target {render(lhs)}")
         raise XlateError(f"statement kind {k}")
+
+    def _leaf_with_exit(self, e):
+        """is `e` as a whole a leaf template whose early exit is part of the template (nothing to hoist)?"""
+        for pt, _ in self.exprs:
+            b = {}
+            if match(pt, e, b):
+                return not any(self._has_exit(q) for q in b.values())
+        return False
+
+    def _hoist(self, e):
+        """`f(a?, g(b?)?)` -> `let __t0 = a?; let __t1 = b?; let __t2 = g(__t1)?; f(__t0, __t2)`: every nested `?` that is
+        evaluated unconditionally becomes a `let … = …?;` statement in evaluation order (a `?` at the root stays)"""
+        pre = []
+
+        def walk(x, top):
+            if isinstance(x, list):
+                return [walk(y, False) for y in x]
+            if not isinstance(x, tuple) or not x:
+                return x
+            if x[0] in ("closure", "if", "iflet", "match", "block", "macro"):
+                if top:
+                    return x            # a block-like statement: its own statements are translated in turn
+                if self._has_exit(x):
+                    raise XlateError("`?` under a conditional sub-expression")
+                return x
+            if x[0] == "bin" and x[1] in ("&&", "||"):
+                lhs = walk(x[2], False)
+                if self._has_exit(x[3]):
+                    raise XlateError("`?` on the lazy side of && / ||")
+                return ("bin", x[1], lhs, x[3])
+            if x[0] == "try":
+                inner = walk(x[1], False)
+                if top:
+                    return ("try", inner)
+                name = f"__t{self._tn}"
+                self._tn += 1
+                pre.append(("let", ("pbind", name), ("try", inner), None))
+                return ("path", name)
+            return tuple(walk(y, False) if isinstance(y, (tuple, list)) else y for y in x)
+        return walk(e, True), pre
 
     def _has_exit(self, e):
         """does the block-like expression contain `?` or `return` (so that it cannot be a pure value)?"""
